@@ -195,81 +195,48 @@ def check_harness(res, tag, behaviours, n):
 
 def selftest(recs):
     """the binding binds: corruptions of an accepted trace must each be rejected"""
-    body = recs[:400]
-    # cut at a point where no call is open
-    depth, cut = 0, 0
-    for i, e in enumerate(body):
+    STACK = ("push", "pop", "stack")
+    # a window of the trace that starts and ends with no call open and contains a dispatched (non-stack) step
+    depth, bounds = 0, [0]
+    for i, e in enumerate(recs):
         if e["ev"] == "dispatch":
             depth += 1
         elif e["ev"] == "applied":
             depth -= 1
             if depth == 0:
-                cut = i + 1
-    body = body[:cut]
+                bounds.append(i + 1)
+        elif e["ev"] == "reset":
+            depth = 0
+            bounds.append(i)
+    cand = [i for i, e in enumerate(recs) if e["ev"] == "step" and not e["skipped"] and e["name"] not in STACK]
+    if not cand:
+        raise vlib.ToolError("runtime trace self test: no dispatched step in the trace")
+    i0 = cand[len(cand) // 2]
+    lo = max(b for b in bounds if b <= i0)
+    his = [b for b in bounds if b > i0]
+    hi = his[min(len(his) - 1, 20)] if his else len(recs)
+    # the `built` events the window needs may lie before it
+    need = {e["id"] for e in recs[lo:hi] if e["ev"] == "dispatch"}
+    have = {e["id"] for e in recs[lo:hi] if e["ev"] == "built"}
+    body = [e for e in recs[:lo] if e["ev"] == "built" and e["id"] in need - have] + [e for e in recs[lo:hi] if e["ev"] != "forget"]
     path = os.path.join(vlib.WORK, "traces", "rt-selftest.ndjson")
     vlib.write_ndjson(path, body)
     if not vlib.tlc_trace("Trace_Runtime", path, tag="rt-selftest")["accepted"]:
-        raise vlib.ToolError("runtime trace self test: the uncorrupted prefix is not accepted")
+        raise vlib.ToolError("runtime trace self test: the uncorrupted window is not accepted")
 
     def rejected(tr, what):
         vlib.write_ndjson(path, tr)
         if vlib.tlc_trace("Trace_Runtime", path, tag="rt-selftest")["accepted"]:
             raise vlib.ToolError("runtime trace validation is vacuous: accepted a trace with " + what)
-    i = next(i for i, e in enumerate(body) if e["ev"] == "step" and not e["skipped"])
+    i = next(i for i, e in enumerate(body) if e["ev"] == "step" and not e["skipped"] and e["name"] not in STACK)
     t = [dict(e) for e in body]; t[i]["count"] += 1
     rejected(t, "an altered step count")
     rejected(body[:i] + body[i + 1:], "a dropped step event")
     j = next(j for j, e in enumerate(body) if e["ev"] == "dispatch" and j > 0 and body[j - 1]["ev"] in ("dispatch", "step"))
     t = [dict(e) for e in body]; t[j]["req"] = "I" if t[j]["req"] == "F" else "F"
     rejected(t, "a flipped direction")
-    k = next(k for k, e in enumerate(body) if e["ev"] == "built" and len(e["steps"]) >= 2)
-    t = [dict(e) for e in body]; t[k]["steps"] = list(reversed(t[k]["steps"]))
-    rejected(t, "the steps of a pipeline in reverse order")
-
-
-def cache_trace(events):
-    """grid cache events of one process (emitted under the cache mutex, so the sequence order is the real order)
-    -> records for Trace_C18.  An address may be reused once the cache was cleared and the last operator holding
-    the grid is gone: object tokens carry the number of clears before their load."""
-    out, gen, token = [{"ev": "reset"}], 0, {}
-    for e in sorted(events, key=lambda e: int(e["seq"])):
-        if e["ev"] == "grid_clear":
-            gen += 1
-            out.append({"ev": "grid_clear"})
-        elif e["ev"] == "grid_get":
-            r = {"ev": "grid_get", "name": e["name"], "outcome": e["outcome"], "obj": ""}
-            if e["outcome"] == "load":
-                token[e["obj"]] = "%s@%d" % (e["obj"], gen)
-            if e["outcome"] in ("load", "hit"):
-                r["obj"] = token.get(e["obj"], e["obj"])
-            out.append(r)
-    return out
-
-
-def check_repo_cache(res):
-    """the grid cache events of the repository's own test suite are those of a sequential cache (Trace_C18)"""
-    procs, summary = record_repo_tests()
-    n = 0
-    for i, evs in enumerate(procs):
-        recs = cache_trace(evs)
-        if len(recs) < 2:
-            continue
-        n += len(recs)
-        path = os.path.join(vlib.WORK, "traces", "repo-cache-%d.ndjson" % i)
-        os.makedirs(os.path.dirname(path), exist_ok=True)
-        vlib.write_ndjson(path, recs)
-        info = vlib.tlc_trace("Trace_C18", path, tag="rt-cache-%d" % i)
-        res.states += info["states"]
-        res.transitions += info["generated"]
-        res.trace_events += info["matched"] or 0
-        if info["accepted"]:
-            res.trace_segments_accepted += 1
-        else:
-            k = info["matched"] or 0
-            res.add_violation({"suite": "repo-tests-cache", "what": "grid cache events of the repository's tests rejected by Trace_C18",
-                               "first_unmatched_event": info["next"], "events_before": recs[max(0, k - 10):k],
-                               "signature": "repo-cache|" + json.dumps(info["next"], sort_keys=True)})
-    if n < 10:
-        raise vlib.ToolError("the repository's test suite produced only %d grid cache events: hooks missing?" % n)
-    res.extra["repo_test_cache_events"] = n
-    return n
+    ks = [k for k, e in enumerate(body) if e["ev"] == "built" and len(e["steps"]) >= 2
+          and any(d["ev"] == "dispatch" and d["id"] == e["id"] for d in body)]
+    if ks:
+        t = [dict(e) for e in body]; t[ks[0]]["steps"] = list(reversed(t[ks[0]]["steps"]))
+        rejected(t, "the steps of a pipeline in reverse order")
